@@ -1,6 +1,7 @@
 mod ast;
 mod chart;
 mod engine;
+mod ffref;
 mod gens;
 mod interp;
 mod loader;
@@ -52,6 +53,8 @@ fn main() {
     let code = dispatch!(id.as_str(), args,
         "C01" => props::c01::C01,
         "C02" => props::c02::C02,
+        "C05" => props::c05::C05,
+        "C06" => props::c06::C06,
     );
     std::process::exit(code);
 }
